@@ -161,6 +161,24 @@ fn check_typed<T: Serialize + DeserializeOwned + std::fmt::Debug>(ty: &str, v: &
     let p = text_model(&toml::to_string(v).unwrap()).map_err(|e| Failure::new("valid", e, case()))?;
     let q = text_model(&toml::to_string_pretty(v).unwrap()).map_err(|e| Failure::new("valid", e, case()))?;
     model::diff_tbl(&p, &q, Cmp::SERDE).map_err(|e| Failure::new("plain-vs-pretty", format!("{ty}: plain and pretty decode differently: {e}"), case()))?;
+    // toml_edit's own serializers: same data, plain and pretty, deterministic, fixed point
+    for (who, f) in [("toml_edit::ser::to_string", toml_edit::ser::to_string::<T> as fn(&T) -> Result<String, toml_edit::ser::Error>), ("toml_edit::ser::to_string_pretty", toml_edit::ser::to_string_pretty::<T>)] {
+        let s1 = match f(v) {
+            Ok(s) => s,
+            // (roots the document serializers refuse - documented - are refused by all of them)
+            Err(e) => return Err(Failure::new("ser", format!("{who} fails for {ty} although toml::to_string succeeds: {e}"), case())),
+        };
+        if f(v).ok().as_ref() != Some(&s1) {
+            return Err(Failure::new("deterministic", format!("{who} twice gives different text for {ty}"), case()));
+        }
+        let m = text_model(&s1).map_err(|e| Failure::new("valid", format!("{who}: {e}"), case()))?;
+        model::diff_tbl(&m, &p, Cmp::SERDE).map_err(|e| Failure::new("plain-vs-pretty", format!("{ty}: {who} and toml::to_string decode differently: {e}\n--- {who}\n{s1}\n---"), case()))?;
+        let back: T = toml_edit::de::from_str(&s1).map_err(|e| Failure::new("valid", format!("{who}: output does not read back: {e}\n{s1}"), case()))?;
+        let s2 = f(&back).map_err(|e| Failure::new("ser", format!("{e}"), case()))?;
+        if s2 != s1 {
+            return Err(Failure::new("fixed-point", format!("{who} of {ty}: not a fixed point in one step\n--- first\n{s1}\n--- second\n{s2}"), case()));
+        }
+    }
     Ok(())
 }
 
